@@ -68,9 +68,9 @@ CHECKS = {
    text='Proved for all 2^32 words: no two instruction classes claim the same word; for every class, check(w) implies bin(decode(w)) == w. Complete over 64 primary x 1024 extended opcodes x Rc/LK x field patterns: claiming class and mnemonic vs the PowerPC UISA table, str() total. Bounded over the same enumeration: asm(str(ppc_mn(w))) == w. 48 obligations (wrong/missing names, renderer crashes, conditional-branch text) are known findings.',
    note='Trusted: z3; the SymWord proxy (CPython runs the real methods identically on it); the S-ppc table in checks/C18.py (words outside it are outside the compared domain).',
    ref='5 C18'),
- 'C01': dict(cat='other', tech='contract "accepted => equal to the IA-32 decoding" on x86_mn._dis checked on a structurally exhaustive enumeration against an independent spec decoder written from the SDM opcode maps; ModRM/SIB table builders checked completely by computation',
+ 'C01': dict(cat='other', tech='contract "accepted => equal to the IA-32 decoding" on x86_mn._dis checked on a structurally exhaustive enumeration against an independent spec decoder written from the SDM opcode maps; for the MMX/SSE maps the reference decoder is the real GNU objdump (executed on the enumerated strings in NOP-padded slots; length, mnemonic and normalised operand text compared); ModRM/SIB table builders checked completely by computation',
    text='6.8M byte strings (every opcode path of the decoder trie x prefix sets x every ModRM x SIB grid x data paddings); the 1.6M that lie in the spec domain (one-byte map, integer/system 0F map, x87; no superfluous prefix) are compared field by field: length, raw bytes, mnemonic, operand kinds, registers, base/index/scale, displacement, segment, immediate value, operand size. init_pre_modrm is compared with SDM tables 2-1..2-3 on all 65 792 + 256 entries and the reverse table fd_afs entry by entry. 65 disagreement groups are known findings.',
-   note='Trusted: specs/x86dec.py. MMX/SSE opcodes are outside the spec (59% of accepted strings) and are not compared. _dis itself is not proved.',
+   note='Trusted: specs/x86dec.py; GNU objdump 2.40 and the text normalisation of checks/C01sse.py for the MMX/SSE maps (693k strings compared; strings objdump rejects or reads with a superfluous prefix are outside the domain, as the quantifier says). _dis itself is not proved.',
    ref='5 C01'),
  'C10': dict(cat='other', tech='readbs contract proved by VC generation from its AST (pyvc, z3) + static frame obligation on the AST of _dis/get_afs (stream used only through readbs/offset); totality of dis/asm/asm_att as bounded run-time contracts over structured and random inputs',
    text='Proved for all offsets/lengths: readbs raises IOError iff the request exceeds the buffer, otherwise returns exactly bin[offset:offset+l] and advances the offset; the slice never leaves the sequence. Static: _dis/get_afs touch the stream only via readbs()/offset. Bounded: 1.4M byte strings (structured + random, stream offsets, all truncations) never crash dis, accepted instructions render in both syntaxes; 170k token sequences make asm/asm_att return a list or raise ValueError. 238 crash/rendering classes are known findings.',
